@@ -136,4 +136,41 @@ theorem lookup_by_wildcard {before after : Table} {d : OptDecl} {h body tl : Byt
     simp [OptDecl.headTails, hw, hname, wcSplit_pattern hh, wcMatch, wcMatch1_pattern h body tl hbody]
   simp [lookup, find_name_none hn, findLoop_skip hb, findLoop, hs, hm]
 
+/-- the body is cut with the pattern that matched: the first pattern (name, then synonyms in
+order) that matches the key -/
+theorem wcMatch_pattern {pre post : List (Bytes × Bytes)} {h body tl : Bytes} (hbody : body ≠ [])
+    (hpre : ∀ ht ∈ pre, wcMatch1 ht (h ++ (body ++ tl)) = none) :
+    wcMatch (pre ++ (h, tl) :: post) (h ++ (body ++ tl)) = some body := by
+  induction pre with
+  | nil => simp [wcMatch, wcMatch1_pattern h body tl hbody]
+  | cons x xs ih =>
+    have hx := hpre x (by simp)
+    have := ih (fun ht hht => hpre ht (by simp [hht]))
+    simp only [wcMatch] at this ⊢
+    simp [hx, this]
+
+/-- every name/synonym pattern `head*tail` of a wildcard option is one of its (head, tail) pairs -/
+theorem headTails_mem {d : OptDecl} (hw : d.isWildcard = true) {pat h tl : Bytes}
+    (hmem : pat = d.name ∨ pat ∈ d.syns) (hpat : pat = h ++ star :: tl) (hh : ∀ c ∈ h, c ≠ star) :
+    (h, tl) ∈ d.headTails := by
+  have hs : wcSplit pat = (h, tl) := by rw [hpat]; exact wcSplit_pattern hh
+  simp only [OptDecl.headTails, hw, if_true, List.mem_cons, List.mem_map]
+  cases hmem with
+  | inl e => left; rw [← hs, e]
+  | inr e => right; exact ⟨pat, e, hs⟩
+
+/-- **By any wildcard pattern of the option (primary name or synonym, of any shape).**  A key
+`head body tail` written with the pattern `head*tail` addresses the option, and the recorded body
+is exactly `body` — provided no pattern listed before it for this option matches the key. -/
+theorem lookup_by_wildcard_pattern {before after : Table} {d : OptDecl} {pre post : List (Bytes × Bytes)}
+    {h body tl : Bytes} (hht : d.headTails = pre ++ (h, tl) :: post) (hbody : body ≠ [])
+    (hpre : ∀ ht ∈ pre, wcMatch1 ht (h ++ (body ++ tl)) = none)
+    (hn : ∀ e ∈ before ++ d :: after, ciEq e.name (h ++ (body ++ tl)) = false)
+    (hb : ∀ e ∈ before, e.syns.any (fun s => ciEq (h ++ (body ++ tl)) s) = false ∧
+                        wcMatch e.headTails (h ++ (body ++ tl)) = none)
+    (hs : d.syns.any (fun s => ciEq (h ++ (body ++ tl)) s) = false) :
+    lookup (before ++ d :: after) (h ++ (body ++ tl)) = some (d, some body) := by
+  have hm : wcMatch d.headTails (h ++ (body ++ tl)) = some body := by rw [hht]; exact wcMatch_pattern hbody hpre
+  simp [lookup, find_name_none hn, findLoop_skip hb, findLoop, hs, hm]
+
 end MpVerif.C11
